@@ -126,6 +126,8 @@ def run(ctx):
     iy_dom = [(y, m, i, s) for (y, m) in [(2024, 1), (2024, 2), (2024, 12), (2026, 3), (2021, 12)] for i in (0, 3) for s in (0, 1, 4)]
     # the last week of December for every week start: a leap year whose January 1 is the weekday before the week start spans 54 weeks (2000 / Sunday, 2012 / Monday, 1972 / Sunday)
     iy_dom += [(y, 12, last_week(y, 12, s), s) for y in (1972, 2000, 2012, 2023, 2024, 1582) for s in range(7)]
+    # weeks that start on, around and after the ten dropped days of October 1582 (a first day there has a day-of-month 10 larger than its place in the month)
+    iy_dom += [(1582, m_, i_, s) for (m_, i_) in ((10, 0), (10, 1), (10, 2), (10, 3), (11, 0), (11, 2)) for s in (0, 1, 4, 6) if i_ <= last_week(1582, m_, s)]
     table(ctx, R, 'SolarWeek::get_index_in_year', sorted(set(iy_dom)),
           idx_in_year, idx_orc, 'index in year counts weeks from the one containing January 1', str, fn_site(p, 'SolarWeek::get_index_in_year'))
 
